@@ -64,7 +64,7 @@ P = {
          "Model used only to resolve state-relative op arguments.", "5 C18"),
 }
 
-BUILT = set(os.environ.get("BUILT", "C01 C04 C05 C06 C13 C15 C16").split())
+BUILT = set(os.environ.get("BUILT", "C01 C02 C03 C04 C05 C06 C07 C08 C09 C10 C11 C12 C13 C14 C15 C16 C17 C18").split())
 
 
 def main():
